@@ -231,6 +231,91 @@ Proof.
       * destruct Hd as (x & c1 & Hin & Hd). right. exists (x, c1). split; auto. apply IH. exists k, c. repeat split; auto. lia.
 Qed.
 
+(** the traversal sets the panic flag only when a live registered fidRef has no parent *)
+Definition TP (hs hs' : list nat * st) : Prop := frame (snd hs) (snd hs') /\ s_panic B (snd hs') = s_panic B (snd hs).
+
+Lemma TP_fold {A} (f : A -> list nat * st -> list nat * st) (s0 : st) (l : list A) :
+  (forall a hs, In a l -> frame s0 (snd hs) -> TP hs (f a hs)) ->
+  forall hs, frame s0 (snd hs) -> TP hs (fold_left (fun st a => f a st) l hs).
+Proof.
+  induction l as [|a l IH]; intros H hs F; cbn [fold_left]; [split; [apply frame_refl | reflexivity]|].
+  destruct (H a hs (or_introl eq_refl) F) as (F1 & P1).
+  destruct (IH (fun a' hs' Hin => H a' hs' (or_intror Hin)) (f a hs) (frame_trans _ _ _ F F1)) as (F2 & P2).
+  split; [eapply frame_trans; eauto | congruence].
+Qed.
+
+Lemma renamed_call_tp r nm hs : (liveb (snd hs) r = true -> fr_parent (gref (snd hs) r) <> None) -> TP hs (renamed_call B bstep r nm hs).
+Proof.
+  intros Hp. destruct (renamed_call_tr r nm hs) as (_ & F). split; [exact F|].
+  destruct hs as [held s]. unfold renamed_call, try_incref, liveb in *. cbn [fst snd] in *.
+  destruct (fr_refs (gref s r) <=? 0)%Z eqn:E; cbn [snd negb] in *; [reflexivity|].
+  set (s2 := with_held B (r :: s_held B (incref B r s)) (incref B r s)).
+  assert (Ep : fr_parent (gref s2 r) = fr_parent (gref s r)).
+  { change (gref s2 r) with (gref (incref B r s) r). unfold incref. rewrite gref_set. destruct ((r =? r) && (r <? length (s_refs B s))); reflexivity. }
+  rewrite Ep. destruct (fr_parent (gref s r)) as [p|]; [|exfalso; apply Hp; reflexivity].
+  unfold bcall_. destruct (bstep (s_be B s2) _). reflexivity.
+Qed.
+
+Lemma notify_name_change_tp fuel : forall n hs,
+  (forall e, In e (below fuel (snd hs) n) -> liveb (snd hs) (fst e) = true -> fr_parent (gref (snd hs) (fst e)) <> None) ->
+  TP hs (notify_name_change B bstep fuel n hs).
+Proof.
+  induction fuel as [|f IH]; intros n hs Hc; cbn [notify_name_change below] in *.
+  - split; [split; auto | reflexivity].
+  - set (s0 := snd hs) in *. set (pn := gnode s0 n) in *.
+    assert (Cond : forall s1 (e : nat * nat), frame s0 s1 -> (liveb s0 (fst e) = true -> fr_parent (gref s0 (fst e)) <> None) ->
+                    liveb s1 (fst e) = true -> fr_parent (gref s1 (fst e)) <> None).
+    { intros s1 e (_ & R) H. destruct (R (fst e)) as (_ & -> & ->). exact H. }
+    assert (P1 : TP hs (fold_left (fun st e => fold_left (fun st' r => renamed_call B bstep r (fst e) st') (snd e) st) (pn_refs pn) hs)).
+    { apply (TP_fold (fun e st => fold_left (fun st' r => renamed_call B bstep r (fst e) st') (snd e) st) s0); [|apply frame_refl].
+      intros e hs1 He F1. apply (TP_fold (fun r st' => renamed_call B bstep r (fst e) st') s0); auto.
+      intros r hs2 Hr F2. apply renamed_call_tp. apply (Cond (snd hs2) (r, fst e) F2). apply Hc.
+      apply in_or_app. left. apply in_regs_of. exists (snd e). split; auto. destruct e; exact He. }
+    set (hs1 := fold_left _ (pn_refs pn) hs) in *. destruct P1 as (F1 & Q1).
+    assert (P2 : TP hs1 (fold_left (fun st c => notify_name_change B bstep f (snd c) st) (pn_nodes pn) hs1)).
+    { apply (TP_fold (fun c st => notify_name_change B bstep f (snd c) st) s0); auto.
+      intros c hs2 Hcn F2. apply IH. intros e He. rewrite (below_frame f s0 (snd hs2)) in He by auto.
+      apply (Cond (snd hs2) e F2). apply Hc. apply in_or_app. right. apply in_flat_map. exists c. auto. }
+    destruct P2 as (F2 & Q2). split; [eapply frame_trans; eauto | congruence].
+Qed.
+
+(** pre-order, as positions: the registrations of a node come before those of each of its child nodes *)
+Lemma flat_map_split {X Y} (f : X -> list Y) a l : In a l -> exists l1 l2, flat_map f l = flat_map f l1 ++ f a ++ flat_map f l2.
+Proof.
+  intros H. destruct (in_split _ _ H) as (l1 & l2 & ->). exists l1, l2. rewrite flat_map_app. reflexivity.
+Qed.
+
+Lemma below_order (s : st) : forall k fuel n m' x m,
+  down s n m' k -> In (x, m) (pn_nodes (gnode s m')) -> S k < fuel ->
+  exists A B C, below fuel s n = A ++ regs_of (gnode s m') ++ B ++ regs_of (gnode s m) ++ C.
+Proof.
+  induction k as [|k IH]; intros fuel n m' x m Hd Hin Hf; cbn [down] in Hd.
+  - subst m'. destruct fuel as [|[|f]]; try lia.
+    change (below (S (S f)) s n) with (regs_of (gnode s n) ++ flat_map (fun c => below (S f) s (snd c)) (pn_nodes (gnode s n))).
+    destruct (flat_map_split (fun c => below (S f) s (snd c)) (x, m) _ Hin) as (l1 & l2 & E). rewrite E. cbn [snd].
+    change (below (S f) s m) with (regs_of (gnode s m) ++ flat_map (fun c => below f s (snd c)) (pn_nodes (gnode s m))).
+    exists [], (flat_map (fun c => below (S f) s (snd c)) l1),
+      (flat_map (fun c => below f s (snd c)) (pn_nodes (gnode s m)) ++ flat_map (fun c => below (S f) s (snd c)) l2).
+    cbn [app]. rewrite <- !app_assoc. reflexivity.
+  - destruct Hd as (y & c1 & Hy & Hd). destruct fuel as [|f]; [lia|].
+    change (below (S f) s n) with (regs_of (gnode s n) ++ flat_map (fun c => below f s (snd c)) (pn_nodes (gnode s n))).
+    destruct (IH f c1 m' x m Hd Hin ltac:(lia)) as (A & B' & C & E).
+    destruct (flat_map_split (fun c => below f s (snd c)) (y, c1) _ Hy) as (l1 & l2 & E2). rewrite E2. cbn [snd]. rewrite E.
+    exists (regs_of (gnode s n) ++ flat_map (fun c => below f s (snd c)) l1 ++ A), B', (C ++ flat_map (fun c => below f s (snd c)) l2).
+    rewrite <- !app_assoc. reflexivity.
+Qed.
+
+(** ... hence in the log: the Renamed calls for the fidRefs registered in a node (the parents) precede the calls
+    for the fidRefs registered in each of its child nodes (their children) *)
+Corollary told_order (s : st) k fuel n m' x m :
+  down s n m' k -> In (x, m) (pn_nodes (gnode s m')) -> S k < fuel ->
+  exists A B C, flat_map (tell s) (below fuel s n) =
+    A ++ flat_map (tell s) (regs_of (gnode s m')) ++ B ++ flat_map (tell s) (regs_of (gnode s m)) ++ C.
+Proof.
+  intros Hd Hin Hf. destruct (below_order s k fuel n m' x m Hd Hin Hf) as (A & B' & C & E). rewrite E.
+  exists (flat_map (tell s) A), (flat_map (tell s) B'), (flat_map (tell s) C). rewrite !flat_map_app. reflexivity.
+Qed.
+
 (** C08_notified below the moved entry, every state and backend: the backend calls made by
     notifyNameChange(pn) are, in this order, one Renamed(File of r, File of r's parent, name) for every
     (r, name) registered in a node at or below pn whose count is positive ([tell]; [in_below] says which
